@@ -61,7 +61,18 @@ func VerifHarness_C13_RecursiveTypes() {
 	a := types.NewNamed(types.NewTypeName(0, verifUserPkg, "A", nil), nil, nil)
 	c1 := cyc[nondetChoice("a.ctor", 5)]
 	var t types.Type = a
-	if nondetChoice("mutual", 2) == 0 {
+	if via := nondetChoice("self-reference-in", 4); via > 0 {
+		// the cycle closes through a position other than the element: map key, both key and value, func signature
+		verifReach("other-position")
+		switch via {
+		case 1:
+			a.SetUnderlying(types.NewMap(types.NewPointer(a), types.Typ[types.Bool]))
+		case 2:
+			a.SetUnderlying(types.NewMap(types.NewPointer(a), types.NewSlice(a)))
+		default:
+			a.SetUnderlying(types.NewSignatureType(nil, nil, nil, types.NewTuple(types.NewParam(0, verifUserPkg, "x", a)), types.NewTuple(types.NewParam(0, verifUserPkg, "", types.NewSlice(a))), false))
+		}
+	} else if nondetChoice("mutual", 2) == 0 {
 		inner := func(string) types.Type { return a }
 		if c1 == VerifCtorStruct {
 			inner = func(string) types.Type { return types.NewPointer(a) }
